@@ -51,6 +51,12 @@ def probe_portfolio(spec):
     """set up, optimise and decode a portfolio (monolithic; optionally split)"""
     o = {}
     opts = spec.get('opts', {})
+    for pre in opts.get('prelude', []):
+        # other portfolios set up earlier in the same process (same node and asset names): the result below must not depend on them
+        try:
+            mk_portfolio(pre).setup_optim_problem(mk_prices(pre), mk_grid(pre['grid']))
+        except Exception:
+            pass
     try:
         portf = mk_portfolio(spec)
         tg = mk_grid(spec['grid'])
